@@ -13,6 +13,7 @@ import (
 	sdk "github.com/cosmos/cosmos-sdk/types"
 	banktypes "github.com/cosmos/cosmos-sdk/x/bank/types"
 	ammtypes "github.com/elys-network/elys/x/amm/types"
+	commitmenttypes "github.com/elys-network/elys/x/commitment/types"
 	lptypes "github.com/elys-network/elys/x/leveragelp/types"
 	mctypes "github.com/elys-network/elys/x/masterchef/types"
 	perptypes "github.com/elys-network/elys/x/perpetual/types"
@@ -301,7 +302,13 @@ func (g *Gen) Op(name string, ac *chain.Actor, ctx sdk.Context) sdk.Msg {
 		}
 		sh := have.QuoRaw(int64(2 + r.Intn(8)))
 		if g.hostile() {
-			switch r.Intn(3) {
+			switch r.Intn(5) {
+			case 3:
+				// not an exit at all: try to pull the shares out of custody through the commitment
+				// module's own generic messages (pool shares leave custody only by exiting)
+				return &commitmenttypes.MsgUncommitTokens{Creator: me, Amount: sh, Denom: ammtypes.GetPoolShareDenom(pid)}
+			case 4:
+				return &commitmenttypes.MsgUnstake{Creator: me, Amount: sh, Asset: ammtypes.GetPoolShareDenom(pid)}
 			case 0:
 				sh = have
 			case 1:
